@@ -27,6 +27,9 @@ pub fn main(args: &[String]) {
 			_lock_file = Some(f);
 		}
 	}
+	print!("out:{tag}");
+	eprint!("err:{tag}");
+	let _ = std::io::stdout().flush();
 	let ctl = match std::env::var("ACMED_VERIF_CTL") {
 		Ok(c) => c,
 		Err(_) => std::process::exit(97),
